@@ -43,7 +43,24 @@ pub fn gen_entries(rng: &Rng, max_files: usize) -> Entries {
     let n = rng.range(1, max_files);
     let mut v: Entries = vec![];
     for _ in 0..n {
-        let name = if !v.is_empty() && rng.chance(1, 8) { v[rng.below(v.len())].0.clone() } else { hostile_name(rng) };
+        if !v.is_empty() && rng.chance(1, 8) {
+            // a name that differs from an earlier one only in letter case (or not at all), with the same or another line set
+            let (n0, l0) = v[rng.below(v.len())].clone();
+            let name = match rng.below(3) {
+                0 => n0.clone(),
+                1 => n0.to_uppercase(),
+                _ => n0.chars().enumerate().map(|(i, c)| if i % 2 == 0 { c.to_ascii_uppercase() } else { c.to_ascii_lowercase() }).collect(),
+            };
+            if rng.chance(2, 3) {
+                v.push((name, l0));
+                continue;
+            }
+            let k = rng.range(1, 5);
+            let lines: BTreeSet<i32> = (0..k).map(|_| rng.range(1, 400) as i32).collect();
+            v.push((name, lines));
+            continue;
+        }
+        let name = hostile_name(rng);
         let k = rng.range(1, if rng.chance(1, 10) { 30 } else { 5 });
         let lines: BTreeSet<i32> = (0..k).map(|_| if rng.chance(1, 20) { rng.range(1, 99999) as i32 } else { rng.range(1, 400) as i32 }).collect();
         v.push((name, lines));
